@@ -255,7 +255,8 @@ Lemma trans_at_tie m :
 Proof.
   intros Hs Hl Ha. unfold is_trans_at, spec_trans_at, is_pks. rewrite <- Hs.
   rewrite <- (find_existsb c_loader), <- Hl. change (fun c : comp => lab c =? c14_L_Trans_AT_docking) with c_atd.
-  rewrite Ha. destruct (m_starter m); [|rewrite andb_false_r; reflexivity].
+  rewrite Ha. destruct (m_starter m) as [s|]; [|rewrite andb_false_r; reflexivity].
+  rewrite (subtype_is_tat s).
   destruct (existsb c_pks (m_comps m) && negb (isSome (m_loader m))); reflexivity.
 Qed.
 
@@ -810,8 +811,8 @@ Qed.
 Lemma third_cp_refused :
   exists m1 m2 m3,
     build_modules_for_cds
-      [mkComp 41 0 0 10; mkComp 1 0 1 20; mkComp 1 0 2 30; mkComp 28 0 3 40; mkComp 11 0 4 50;
-       mkComp 1 0 5 60; mkComp 28 0 6 70; mkComp 11 0 7 80] = Ok [m1; m2; m3] /\
+      [mkComp 41 [] 0 10; mkComp 1 [] 1 20; mkComp 1 [] 2 30; mkComp 28 [] 3 40; mkComp 11 [] 4 50;
+       mkComp 1 [] 5 60; mkComp 28 [] 6 70; mkComp 11 [] 7 80] = Ok [m1; m2; m3] /\
     map cid (m_comps m1) = [0; 1; 2; 3; 4] /\ map cid (m_comps m2) = [5] /\ map cid (m_comps m3) = [6; 7] /\
     cnt c_cp (m_comps m1) = 2%nat /\ layout_spec (m_comps m1) = true.
 Proof. do 3 eexists. split; [vm_compute; reflexivity|]. repeat split. Qed.
